@@ -237,6 +237,14 @@ func (rd *realDecoder) getCompactString() (string, error) {
 
 	length := int(n - 1)
 
+	if length < 0 {
+		return "", errInvalidStringLength
+	}
+	if length > rd.remaining() {
+		rd.off = len(rd.raw)
+		return "", ErrInsufficientData
+	}
+
 	tmpStr := string(rd.raw[rd.off : rd.off+length])
 	rd.off += length
 	return tmpStr, nil
@@ -252,6 +260,10 @@ func (rd *realDecoder) getCompactNullableString() (*string, error) {
 
 	if length < 0 {
 		return nil, err
+	}
+	if length > rd.remaining() {
+		rd.off = len(rd.raw)
+		return nil, ErrInsufficientData
 	}
 
 	tmpStr := string(rd.raw[rd.off : rd.off+length])
